@@ -42,10 +42,10 @@ TEXT = {
     "C08": "step-level theorems of the stages of gather_and_close (collecting gather waits for the last child, closing step, until_closed); closed stays closed after every continuation of the history (so every later request is rejected); for every history the count of every gather is exact (world-level invariant over the ready queue), so a gather completes only when all its child tasks have finished; the count is an equality (no callback slot is ever dropped), hence at quiescence every flush() / gather_and_close() call has returned and until_closed() waits only for a pool that is not closed; for every history in which nobody calls unlock(): while a gather_and_close waits the pool is locked, its first gather (collecting) has every spawner filed as running among its children and every other live spawner is doomed, every spawner child of a completed collecting gather has finished (world-level counting invariant), from the second gather on no task is created any more and that gather has every task filed as running or cancelled among its children at every moment of the wait, and when it completes every task of the pool has handed back its slot: the closing step drops nothing; when the closing step runs every task of the pool has finished, callbacks included (a task inside its end callback stays filed as ended and is among the children), and every request that was never cancelled is complete; at quiescence every flush / gather_and_close / until_closed call has returned; a pool is closed exactly when a gather_and_close has returned normally (every history); what a flush / gather_and_close raises is the outcome of a task or spawner of the pool (invariant over all histories), hence if no task or callback raised every call that has returned has returned normally, and in a pool nobody unlocks gather_and_close has then, at quiescence, closed the pool",
     "C09": "complete decision tables of the spawning calls, full state equality on rejection, lock/unlock algebra",
     "C10": "get_group_ids spec, freshness of generated names (pigeonhole; decimal rendering of naturals proved injective), membership of new tasks",
-    "C11": "ids are list indices: new id = number of tasks created, never reused (after every continuation of a history a pool has at least as many tasks), pools independent, class-level indices distinct for every history",
+    "C11": "ids are list indices: new id = number of tasks created, never reused (after every continuation of a history a pool has at least as many tasks), pools independent, class-level indices distinct for every history; the running registry lists ids in start order, each below the number of tasks started, in every reachable state",
     "C12": "a failing worker takes the same ending path (slot released, filed as ended); collecting gathers cannot raise; reported exception is a child's; two-run noninterference: a future that raises instead of returning (worker's last await or a coroutine callback) changes nothing but the task's own record and log entries, for histories whose flush / gather_and_close collect exceptions; every finished task has released its slot also in histories with gather_and_close in which nobody calls unlock(); the exception a flush / gather_and_close call ends with is what a task or spawner of this pool ended with (invariant over all histories)",
     "C13": "flush never forgets a task that still holds its slot, for every history without gather_and_close and any number of overlapping flushes (FlushOK invariant); exact effect of flush's last step; collecting flush cannot raise; every flush() has returned at quiescence; neither flush nor gather_and_close forgets an unfinished task in any history in which nobody calls unlock(); a task inside its end callback stays filed as ended and flush forgets finished tasks only (sealed histories)",
-    "C14": "stop(n) = cancel of the last min(n,running) ids newest first; never raises; others unaffected",
+    "C14": "stop(n) = cancel of the last min(n,running) ids newest first; never raises; others unaffected; in every reachable state the running registry is strictly ascending in id (invariant by induction over the history), so the ids named are the most recently started running tasks, strictly descending, and every running task left alone is older than each one named",
     "C15": "as-is semantics proved exactly + closed refutations of the three violated clauses (known findings R5), negative value rejected",
     "C20": "refinement proof over all queue sizes (Queue() and Queue(maxsize=m)) and all histories of the queue machine: exactly-once marking (also next to hand marks: take = get_nowait()+item_processed() by non-task code), unfinished=puts-exits-takes with an item counted when it enters the queue, join iff; bounded queues with producer tasks blocked in put(): never more than maxsize items, a producer cancelled inside put() puts nothing, no lost putter wake-up (counting invariant of the shell)",
     "C16": "command surface = public functions and properties, dash-naming injective, flag assignment never claims -h and never clashes (parser can be built), handshake reply, help everywhere",
